@@ -16,6 +16,7 @@ import ReuseVerif.Lemmas.TagsText
 import ReuseVerif.Lemmas.Window
 import ReuseVerif.Lemmas.Merge
 import ReuseVerif.Lemmas.C02Lines
+import ReuseVerif.Lemmas.C02TailSafe
 import ReuseVerif.Theorems.C20
 
 namespace C02
@@ -183,6 +184,60 @@ theorem C02_tag_found_in_text (endRe body : Re) (hstar : starBody endRe = some b
   exact List.mem_map.mpr ⟨(pre, v),
     findAll_found endRe tag hnl ls pre blanks v pieces.flatten after hfree hshape hend
       (noEndSuffix_of_last endRe v _ hnlv hlast), cleanTag_plain pre v hs hf⟩
+
+/-! ### the finer condition on the value: `tailSafe` -/
+
+/-- **Read-back of a tag value, finer condition.**  `C02_tag_value_exact` with the condition on the value that does
+    not mention the trail: `tailSafe endRe v` — no non-empty tail of `v` is the beginning of a text END matches
+    (decided with Brzozowski derivatives of the END expression).  It covers values whose last character END *can*
+    consume in other contexts (`Jane <j@x.org>`: `>` only after `-`, `?`, `%`, `"`, `'`, `/` …; `(MIT OR X)`: `)` only
+    after `*`, `:`). -/
+theorem C02_value_exact (endRe : Re) (tag pre blanks v trail le : Text)
+    (h : WFValueSafe endRe tag pre blanks v trail le = true) :
+    findSpdxTagWith endRe tag (tagLine pre tag blanks v trail le) = [v] :=
+  C02_tag_value_exact endRe tag pre blanks v trail le (C02L.wfValue_of_safe endRe tag pre blanks v trail le h)
+
+/-- **Stacked terminators, finer condition**: `C02_terminators_never_in_value` with `tailSafe` (purely syntactic, and
+    independent of the trail) instead of `noEndSuffixBefore`. -/
+theorem C02_terminators_tail_safe (endRe body : Re) (hstar : starBody endRe = some body)
+    (tag pre blanks v le : Text) (pieces : List Text)
+    (hp : ∀ p ∈ pieces, pieceOk body p = true)
+    (hshape : WFShape tag pre blanks v pieces.flatten le = true)
+    (hsafe : tailSafe endRe v = true)
+    (hs : isStripped v = true) (hf : frameFree pre v = true) :
+    findSpdxTagWith endRe tag (tagLine pre tag blanks v pieces.flatten le) = [v] := by
+  have hnl : noNewline v = true := by
+    have h := hshape; unfold WFShape at h; simp only [Bool.and_eq_true] at h; exact h.1.1.2
+  exact C02_terminators_never_in_value endRe body hstar tag pre blanks v le pieces hp hshape
+    (C07A.noEndSuffix_of_tailSafe endRe v _ hnl hsafe) hs hf
+
+/-- **The old condition implies the new one**: a value whose last character END cannot consume at all (`mayUse`, the
+    hypothesis of `C02_terminators_safe_last`, `C02_tag_found_in_text`, `C02_window_finds_inside`) is tail-safe … -/
+theorem C02_safe_last_is_tail_safe (endRe : Re) (v : Text) (hlast : ∀ c, v.getLast? = some c → mayUse endRe c = false) :
+    tailSafe endRe v = true := C02L.tailSafe_of_last endRe v hlast
+
+/-- … so the hypotheses of `C02_terminators_safe_last` imply those of `C02_value_exact`. -/
+theorem C02_safe_last_hyps_imply (endRe body : Re) (hstar : starBody endRe = some body)
+    (tag pre blanks v le : Text) (pieces : List Text) (hp : ∀ p ∈ pieces, pieceOk body p = true)
+    (hshape : WFShape tag pre blanks v pieces.flatten le = true)
+    (hlast : ∀ c, v.getLast? = some c → mayUse endRe c = false)
+    (hs : isStripped v = true) (hf : frameFree pre v = true) :
+    WFValueSafe endRe tag pre blanks v pieces.flatten le = true :=
+  C02L.wfValueSafe_of_last endRe body hstar tag pre blanks v le pieces hp hshape hlast hs hf
+
+/-- the finer condition is strictly finer: `Jane <j@x.org>` and `(MIT OR X)` are tail-safe although END can consume
+    their last character; `MIT"` is not (`"` newline `/>` is an ending) -/
+example : tailSafe Generated.endRe "Jane <j@x.org>".toList = true ∧ mayUse Generated.endRe '>' = true ∧
+    tailSafe Generated.endRe "(MIT OR X)".toList = true ∧ mayUse Generated.endRe ')' = true ∧
+    tailSafe Generated.endRe "MIT\"".toList = false := by decide +kernel
+
+/-- `<!-- SPDX-FileContributor: Jane <j@x.org> -->` reads back `Jane <j@x.org>` -/
+example : findSpdxTagWith Generated.endRe Generated.contributorTag
+    (tagLine "<!-- ".toList Generated.contributorTag " ".toList "Jane <j@x.org>".toList
+      ([" ".toList, "-->".toList] : List Text).flatten []) = ["Jane <j@x.org>".toList] :=
+  C02_terminators_tail_safe Generated.endRe ((starBody Generated.endRe).getD .eps) rfl _ _ _ _ _
+    [" ".toList, "-->".toList] (by decide +kernel) (by decide +kernel) (by decide +kernel) (by decide +kernel)
+    (by decide +kernel)
 
 /-! ### texts of arbitrary lines: hypotheses about each line alone -/
 
